@@ -2,7 +2,8 @@
  * - where every input byte of a file goes. Unbounded: `size` is any value
  * <= 2^40 (0 included), the copy loop is closed by a loop contract
  * (contracts/loops/C01_w14.tbl); the state at entry is arbitrary within the
- * front end's invariant: no current block, or one with 0 <= fill < block size;
+ * front end's invariant: no current block, or one with 0 < fill < block size
+ * (a block is only fetched when there is a byte to put into it);
  * data may be NULL (zero fill); with or without inode.
  *
  * Modular (w14): get_new_block and enqueue_block are REPLACED by their
@@ -72,6 +73,7 @@ static void *c01_memset(void *dst, int c, size_t n);
 #undef memset
 
 static sqfs_inode_generic_t *g_slot;
+static const char g_data_anchor[1];
 static sqfs_u64 g_fsize0, g_fsize_set;
 static unsigned g_setsize_calls;
 
@@ -93,16 +95,21 @@ static void copy_pre(void *dst, size_t n)
 		     "C01.bp.bytes_in_order");
 	VERIF_ASSERT(n > 0 && n <= g_size0 - g_done, "C01.bp.bytes_in_order");
 	VERIF_ASSERT(g_blk.b.index == P_IDX(p) && g_blk.b.size == P_OFF(p) &&
-		     dst == (void *)(g_blk.b.data + g_blk.b.size) &&
-		     n <= BS - g_blk.b.size, "C01.bp.bytes_in_order");
-	VERIF_ASSERT(VERIF_W_OK(dst, n), "C01.bp.append_safe");
+		     dst == (void *)(g_blk.b.data + g_blk.b.size),
+		     "C01.bp.bytes_in_order");
+	/* inside the block's BS payload bytes (capacity: GNB) */
+	VERIF_ASSERT(g_blk.b.size < BS && n <= BS - g_blk.b.size,
+		     "C01.bp.append_safe");
 }
 
 static void *c01_memcpy(void *dst, const void *src, size_t n)
 {
 	copy_pre(dst, n);
-	VERIF_ASSERT(g_data0 != NULL && src == (const void *)(g_data0 + g_done) &&
-		     VERIF_R_OK(src, n), "C01.bp.bytes_in_order");
+	VERIF_ASSERT(g_data0 != NULL && src == (const void *)(g_data0 + g_done),
+		     "C01.bp.bytes_in_order");
+	/* inside the caller's [data, data + size) */
+	VERIF_ASSERT(g_done < g_size0 && n <= g_size0 - g_done,
+		     "C01.bp.append_safe");
 	g_done += n;
 	return dst;
 }
@@ -155,10 +162,11 @@ int sqfs_inode_set_frag_location(sqfs_inode_generic_t *inode, sqfs_u32 index,
 
 void harness(void)
 {
-	static sqfs_inode_generic_t inode_obj;
+	/* the inode is opaque to append (only handed to the inode helpers); a
+	 * small stand-in object keeps the points-to split of cbmc cheap */
+	static long inode_standin;
 	sqfs_u32 index0, fill0;
 	sqfs_u64 pend;
-	size_t bufsz;
 	int ret;
 
 	g_done = 0;
@@ -177,7 +185,7 @@ void harness(void)
 	g_p.proc.backlog = verif_nd_size("backlog");
 	VERIF_ASSUME(g_p.proc.backlog <= g_p.proc.max_backlog);
 
-	g_slot = &inode_obj;
+	g_slot = (sqfs_inode_generic_t *)&inode_standin;
 	g_inode_arg = verif_nd_bool("with_inode") ? &g_slot : NULL;
 	g_p.proc.inode = g_inode_arg;
 	g_fsize0 = verif_nd_u64("file_size");
@@ -194,7 +202,7 @@ void harness(void)
 	g_blk.b.io_seq_num = verif_nd_u32("stale");
 	g_blk.b.checksum = verif_nd_u32("stale");
 #if HAVE_CUR
-	VERIF_ASSUME(index0 >= 1 && fill0 < BS);
+	VERIF_ASSUME(index0 >= 1 && fill0 >= 1 && fill0 < BS);
 	g_blk.b.index = index0 - 1;
 	g_blk.b.size = fill0;
 	g_blk.b.inode = g_inode_arg;
@@ -217,14 +225,12 @@ void harness(void)
 
 	g_size0 = verif_nd_size("size");
 	VERIF_ASSUME(g_size0 <= ((sqfs_u64)1 << 40));
-	if (verif_nd_bool("data_is_null")) {
-		g_data0 = NULL;
-	} else {
-		/* the caller's buffer: size bytes (symbolic size) */
-		bufsz = g_size0 ? g_size0 : 1;
-		g_data0 = malloc(bufsz);
-		VERIF_ASSUME(g_data0 != NULL);
-	}
+	/* the caller's buffer [data, data + size) is an address range anchored
+	 * at a one-byte object: the copies are checked against the range
+	 * arithmetically (C01.bp.append_safe in c01_memcpy); a real object of
+	 * symbolic size would sit in cbmc's points-to split of the loop-havocked
+	 * pointers as an unbounded array (measured: + 2.4M variables) */
+	g_data0 = verif_nd_bool("data_is_null") ? NULL : g_data_anchor;
 
 	ret = sqfs_block_processor_append(&g_p.proc, g_data0, g_size0);
 
